@@ -378,6 +378,7 @@ func (i *interpreter) tryMergeCall(caller *frame, fn *ssa.Function, args []value
 		sub := &pathState{
 			prefix:     it.prefix,
 			model:      it.model,
+			itemModel:  it.model,
 			modelValid: it.model != nil && len(it.prefix) == 0,
 			reached:    outer.reached,
 			assertHit:  outer.assertHit,
